@@ -122,7 +122,7 @@ CLAIMS = {
         'at character starts and returns the containing character for interior bytes, and both are the identity on ASCII lines; the AST-position to loc conversion therefore is '
         'exact. Partial (no theorem): the text-scanning computed locations (_loc_arguments, _loc_comprehension, _loc_withitem, _loc_match_case, _loc_op, decorators), pars() and '
         'find_*loc are decided per node / per rectangle against CPython positions, tokenize boundaries, a token bracket matcher and a brute-force scan, with identifiers renamed '
-        'to multi-byte in 70% of the programs. A genuine defect found this way (find_contains_loc ignoring decorators) was repaired in /repo.',
+        'to multi-byte in 70% of the programs. A genuine defect found this way (find_contains_loc ignoring decorators) was repaired in /repo. The search loop of find_contains_loc (models/FindLoc.v: the walk over the descendants with its four cases) returns, on every tree whose children lie inside their parent in order without overlap, the lowest node that contains the span (2 theorems; tied to the method on encoded trees over node spans, their ends and random spans); bloc is compared with an independent token-based expectation for every node.',
    note='Trusted: Coq kernel/vm_compute; hand model Bistr.v tied by correspondence; tokenize (with multi-line end columns recomputed) and ast byte offsets as reference. No axioms.',
    design='DESIGN.md section 4 C06'),
  'C08': dict(
